@@ -19,6 +19,13 @@
    cancelled; serve remembered wants when the block arrives".
    Channels are FIFO per direction and peer.
 
+   Two further switches (ordinary definitions, FALSE = the order the property needs; control cfgs override them with
+   `<-`) split a step into its sub-steps in the OTHER order, with every goroutine free to run in between:
+     ShutdownRemoveFirst  Session.handleShutdown: SessionManager.RemoveSession (withdraw interest, CANCEL) BEFORE the
+                          want sender has stopped: a sender in the middle of onChange sends wants after the CANCELs.
+     IssueWantFirst       getter.AsyncGetBlocks: the want is handed to the session BEFORE notif.Subscribe: a block
+                          published in between is consumed by the session and never reaches the caller.
+
    The Fix* constants select, per mechanism, the as-built behaviour (FALSE) or the repaired
    one (TRUE); see notes/C37.md.  The property (invariants of BitswapNet under the mapping at the
    end, Cleanup at quiescence, and liveness under weak fairness) is checked for the repaired
@@ -38,6 +45,8 @@ CONSTANTS Peer,        \* neighbours of the requester
 
 Sess == {RSess[r] : r \in Req}
 None == 0
+ShutdownRemoveFirst == FALSE
+IssueWantFirst == FALSE
 
 VARIABLES has, ledger, c2p, p2c,
           rst, wasCanc, sub, pipe, got, larr,
@@ -127,6 +136,7 @@ Owed(old, ks) == IF FixG THEN old ELSE old \cup ks
 (* caller side *)
 Issue(r) ==
     LET s == RSess[r] IN
+    /\ ~IssueWantFirst
     /\ rst[r] = "idle"
     /\ s \in Temp => sst[s] = "none"
     /\ rst' = [rst EXCEPT ![r] = "run"]
@@ -135,6 +145,26 @@ Issue(r) ==
     /\ sq' = IF sst'[s] = "run" /\ ~sdown[s]                          \* want(): select on s.incoming / ctx
              THEN [sq EXCEPT ![s] = Append(@, [t |-> "want", ks |-> RKeys[r], call |-> r])] ELSE sq
     /\ UNCHANGED <<has, ledger, c2p, p2c, wasCanc, pipe, got, larr, sim, sdown, sw, calls, wq, swt, sentTo,
+                   speers, bpm, bc, pwb, pwh, pcl, pcw, added>>
+
+\* the same call with the sub-steps in the other order: want() first ...
+IssueW(r) ==
+    LET s == RSess[r] IN
+    /\ IssueWantFirst
+    /\ rst[r] = "idle"
+    /\ s \in Temp => sst[s] = "none"
+    /\ rst' = [rst EXCEPT ![r] = "issuing"]
+    /\ sst' = [sst EXCEPT ![s] = IF @ = "none" THEN "run" ELSE @]
+    /\ sq' = IF sst'[s] = "run" /\ ~sdown[s]
+             THEN [sq EXCEPT ![s] = Append(@, [t |-> "want", ks |-> RKeys[r], call |-> r])] ELSE sq
+    /\ UNCHANGED <<has, ledger, c2p, p2c, wasCanc, sub, pipe, got, larr, sim, sdown, sw, calls, wq, swt, sentTo,
+                   speers, bpm, bc, pwb, pwh, pcl, pcw, added>>
+\* ... notif.Subscribe afterwards
+IssueS(r) ==
+    /\ rst[r] = "issuing"
+    /\ rst' = [rst EXCEPT ![r] = "run"]
+    /\ sub' = [sub EXCEPT ![r] = RKeys[r]]
+    /\ UNCHANGED <<has, ledger, c2p, p2c, wasCanc, pipe, got, larr, sim, sst, sdown, sq, sw, calls, wq, swt, sentTo,
                    speers, bpm, bc, pwb, pwh, pcl, pcw, added>>
 
 UserRecv(r) ==
@@ -256,6 +286,7 @@ MQRebroadcast(p) ==
 
 \* ctx.Done: sws.Shutdown() (waits for the sender), then SessionManager.RemoveSession
 SShutdown(s) ==
+    /\ ~ShutdownRemoveFirst
     /\ Running(s) /\ sdown[s] /\ pcw[s] = {}          \* sws.Shutdown() waits for the sender to finish its step
     /\ sst' = [sst EXCEPT ![s] = "down"]
     /\ sq' = [sq EXCEPT ![s] = <<>>] /\ wq' = [wq EXCEPT ![s] = <<>>]
@@ -267,6 +298,26 @@ SShutdown(s) ==
        /\ SetPW(CancelNow(PW, Orphans(sim, s, mine) \cup {k \in owed : sim1[k] = {}}))
        /\ pcl' = [pcl EXCEPT ![s] = Owed(@, Orphans(sim, s, mine) \cup {k \in owed : sim1[k] = {}})]
     /\ UNCHANGED <<has, ledger, p2c, rst, wasCanc, sub, pipe, got, larr, sdown, sw, calls, swt, sentTo, speers, bpm, pcw, added>>
+
+\* the same shutdown with the sub-steps in the other order: RemoveSession first (the sender keeps running) ...
+SRemoveFirst(s) ==
+    /\ ShutdownRemoveFirst
+    /\ Running(s) /\ sdown[s]
+    /\ sst' = [sst EXCEPT ![s] = "closing"]
+    /\ sq' = [sq EXCEPT ![s] = <<>>]
+    /\ LET mine == {k \in Key : s \in sim[k]}
+           sim1 == SimRemove(sim, s, mine) IN
+       /\ sim' = sim1
+       /\ SetPW(CancelNow(PW, Orphans(sim, s, mine)))
+       /\ pcl' = [pcl EXCEPT ![s] = Owed(@, Orphans(sim, s, mine))]
+    /\ UNCHANGED <<has, ledger, p2c, rst, wasCanc, sub, pipe, got, larr, sdown, sw, calls, wq, swt, sentTo, speers, bpm, pcw, added>>
+\* ... sws.Shutdown() afterwards
+SStopSender(s) ==
+    /\ sst[s] = "closing" /\ pcw[s] = {} /\ pcl[s] = {}
+    /\ sst' = [sst EXCEPT ![s] = "down"]
+    /\ wq' = [wq EXCEPT ![s] = <<>>]
+    /\ UNCHANGED <<has, ledger, c2p, p2c, rst, wasCanc, sub, pipe, got, larr, sim, sdown, sq, sw, calls, swt, sentTo,
+                   speers, bpm, bc, pwb, pwh, pcl, pcw, added>>
 
 -----------------------------------------------------------------------------
 (* session want sender *)
@@ -284,7 +335,7 @@ WHead(s) == Head(wq[s])
 
 \* one change at a time (onChange with a single collected change)
 WStep(s) ==
-    /\ sst[s] = "run" /\ wq[s] # <<>> /\ pcw[s] = {}
+    /\ sst[s] \in {"run", "closing"} /\ wq[s] # <<>> /\ pcw[s] = {}
     /\ LET c == WHead(s)
            isUpd == c.t \in {"blk", "have", "dont"}
            ignored == isUpd /\ c.from = None /\ ~FixD          \* as built: update.from = "" is not an update
@@ -398,18 +449,18 @@ ServerAdd(p, k) ==
                    bpm, bc, pwb, pwh, pcl, pcw>>
 
 -----------------------------------------------------------------------------
-Internal == \/ \E r \in Req : UserRecv(r) \/ Complete(r) \/ GetterExit(r)
+Internal == \/ \E r \in Req : UserRecv(r) \/ Complete(r) \/ GetterExit(r) \/ IssueS(r)
             \/ \E s \in Sess : SWant(s) \/ SCancel(s) \/ SRecv(s) \/ SBcast(s) \/ STick(s) \/ SShutdown(s) \/ WStep(s)
-                               \/ FlushL(s) \/ FlushW(s)
+                               \/ FlushL(s) \/ FlushW(s) \/ SRemoveFirst(s) \/ SStopSender(s)
             \/ \E p \in Peer : ClientRecv(p) \/ ServerRecv(p) \/ MQRebroadcast(p)
-Env == \/ \E r \in Req : Issue(r) \/ Cancel(r)
+Env == \/ \E r \in Req : Issue(r) \/ IssueW(r) \/ Cancel(r)
        \/ \E k \in Key : LocalAdd(k)
        \/ \E p \in Peer, k \in Key : ServerAdd(p, k)
 Next == Internal \/ Env
 Spec == Init /\ [][Next]_vars
 \* every goroutine keeps running; callers eventually issue their requests and the planned additions happen
 FairSpec == /\ Spec /\ WF_vars(Internal)
-            /\ \A r \in Req : WF_vars(Issue(r))
+            /\ \A r \in Req : WF_vars(Issue(r)) /\ WF_vars(IssueW(r))
             /\ \A k \in Key : WF_vars(LocalAdd(k))
             /\ \A p \in Peer, k \in Key : WF_vars(ServerAdd(p, k))
 
@@ -429,7 +480,8 @@ ClosedComplete == \A r \in Req : (rst[r] = "closed" /\ ~wasCanc[r]) => RKeys[r] 
 Quiescent == /\ \A p \in Peer : c2p[p] = <<>> /\ p2c[p] = <<>>
              /\ \A s \in Sess : sst[s] = "run" => (sq[s] = <<>> /\ wq[s] = <<>> /\ ~sdown[s])
              /\ \A s \in Sess : pcl[s] = {} /\ pcw[s] = {}
-             /\ \A r \in Req : rst[r] # "canc" /\ pipe[r] = <<>> /\ ~(rst[r] = "run" /\ sub[r] = {})
+             /\ \A s \in Sess : sst[s] # "closing"
+             /\ \A r \in Req : rst[r] \notin {"canc", "issuing"} /\ pipe[r] = <<>> /\ ~(rst[r] = "run" /\ sub[r] = {})
 Cleanup == Quiescent => Wantlist \subseteq LiveWanted
 
 \* a request that is never cancelled and whose keys all become available is completed
